@@ -9,6 +9,7 @@ package harness
 import (
 	"fmt"
 	"math/rand"
+	"sync"
 	"time"
 
 	"github.com/hashicorp/memberlist"
@@ -178,6 +179,154 @@ func runC13Odd(run *Run, seed int64, sc c13OddScn, id string, inputs int) (out [
 	rig.C.CheckQuiescent()
 	for _, p := range rig.C.Problems() {
 		out = append(out, &c01Result{p.Key, p.What})
+	}
+	return
+}
+
+// runC13NackFlood: the victim has a probe in flight (its target is silent); a peer that saw the probe's
+// sequence number replays nacks for it, far more than the indirect checks the victim asked for. The
+// packet listener must keep serving: a genuine ping sent afterwards is acknowledged.
+func runC13NackFlood(run *Run, seed int64, indirect int) (out []*c01Result) {
+	fail := func(key, f string, a ...any) {
+		out = append(out, &c01Result{"C13/" + key, fmt.Sprintf(f, a...)})
+	}
+	rig, err := NewRig(RigOpts{Seed: seed, Spec: NodeSpec{Name: "V", IP: "10.9.9.9", Mutate: func(cf *memberlist.Config) {
+		cf.ProbeInterval = time.Second
+		cf.ProbeTimeout = 300 * time.Millisecond
+		cf.PushPullInterval = 0
+		cf.GossipInterval = 0
+		cf.IndirectChecks = indirect
+		cf.DisableTcpPings = true
+		cf.SuspicionMult = 30
+	}}})
+	if err != nil {
+		fail("harness/create", "%v", err)
+		return
+	}
+	defer rig.Close()
+	T := rig.AddPeer("T", "10.9.2.1", 7946) // silent target
+	x := rig.AddPeer("x", "10.9.1.1", 7946)
+	x.AutoAck = true
+	rig.Introduce(T, 1)
+	rig.Introduce(x, 1)
+	Settle(time.Millisecond)
+	floods := 0
+	for round := 0; round < 6; round++ {
+		nT := len(T.Received())
+		var seq uint32
+		found := false
+		for i := 0; i < 1200 && !found; i++ {
+			Settle(5 * time.Millisecond)
+			for _, p := range T.Received()[nT:] {
+				for _, l := range p.Info.Leaves {
+					if l.Type == TPing {
+						var pg WPing
+						if mpDecode(l.Body, &pg) == nil {
+							seq, found = pg.SeqNo, true
+						}
+					}
+				}
+			}
+		}
+		if !found {
+			break
+		}
+		run.Journal("nack-flood", fmt.Sprintf("round %d: %d nacks for pending seq %d", round, indirect+6, seq))
+		for k := 0; k < indirect+6; k++ {
+			x.Send(Enc(TNack, &WNack{SeqNo: seq}))
+		}
+		Settle(5 * time.Millisecond)
+		floods++
+		run.Eval(1)
+		run.Cell("nack-flood", fmt.Sprintf("indirect=%d", indirect))
+		// liveness on the packet listener
+		pseq := uint32(990000 + round)
+		nx := len(x.Received())
+		x.Send(Enc(TPing, &WPing{SeqNo: pseq, Node: "V", SourceAddr: []byte(x.EP.IP), SourcePort: 7946, SourceNode: "x"}))
+		Settle(5 * time.Millisecond)
+		acked := false
+		for _, p := range x.Received()[nx:] {
+			for _, l := range p.Info.Leaves {
+				if l.Type == TAck {
+					var a WAck
+					if mpDecode(l.Body, &a) == nil && a.SeqNo == pseq {
+						acked = true
+					}
+				}
+			}
+		}
+		if !acked {
+			fail("packet-listener-dead", "after %d nacks for the sequence number of a probe in flight (IndirectChecks=%d) a genuine ping is no longer acknowledged", indirect+6, indirect)
+			return
+		}
+		// refute the suspicion that follows so that T is probed again as an alive member
+		Settle(1500 * time.Millisecond)
+		if r := rig.V.Record("T"); r != nil && r.State != memberlist.StateAlive {
+			T.Send(Enc(TAlive, &WAlive{Incarnation: r.Incarnation + 1, Node: "T", Addr: []byte(T.EP.IP), Port: 7946, Vsn: DefaultVsn()}))
+			Settle(time.Millisecond)
+		}
+	}
+	if floods == 0 {
+		fail("harness/no-probe", "the victim never probed its silent peer")
+	}
+	return
+}
+
+// runC13MergeCap: the merge delegate is slow (here: parked until released). Join push/pulls that have
+// been read and answered but whose merge is still pending keep occupying one of the 128 slots: while
+// they do, further push/pulls are refused before their state is processed.
+func runC13MergeCap(run *Run, seed int64, total int) (out []*c01Result) {
+	fail := func(key, f string, a ...any) {
+		out = append(out, &c01Result{"C13/" + key, fmt.Sprintf(f, a...)})
+	}
+	rig, err := NewRig(RigOpts{Seed: seed, Spec: NodeSpec{Name: "V", IP: "10.9.9.9", WithMerge: true, Mutate: func(cf *memberlist.Config) {
+		cf.ProbeInterval = noProbe
+		cf.PushPullInterval = 0
+		cf.GossipInterval = 0
+		cf.TCPTimeout = 5 * time.Second
+	}}})
+	if err != nil {
+		fail("harness/create", "%v", err)
+		return
+	}
+	defer rig.Close()
+	V := rig.V
+	gate := make(chan struct{})
+	var mu sync.Mutex
+	entered := 0
+	V.mu.Lock()
+	V.MergeVeto = func([]*memberlist.Node) error {
+		mu.Lock()
+		entered++
+		mu.Unlock()
+		<-gate
+		return nil
+	}
+	V.mu.Unlock()
+	x := rig.AddPeer("x", "10.9.1.1", 7946)
+	for i := 0; i < total; i++ {
+		i := i
+		go x.PushPullBlocking(true, []WPushNodeState{{Name: fmt.Sprintf("j%d", i), Addr: []byte{10, 9, 6, byte(i%250 + 1)}, Port: 7946, Incarnation: 1, State: SAlive, Vsn: DefaultVsn()}}, nil)
+		time.Sleep(time.Millisecond)
+	}
+	Settle(100 * time.Millisecond)
+	mu.Lock()
+	n := entered
+	mu.Unlock()
+	inflight := V.ML().VerifPushPullInFlight()
+	run.Eval(1)
+	run.Cell("merge-cap", fmt.Sprintf("offered=%d", total))
+	run.Max("pushpulls_merging_at_once", float64(n))
+	if n > 128 {
+		fail("pushpull-cap", "%d join push/pulls were being merged at the same time (the merge delegate had not returned for any of them; in-flight counter %d): the cap of 128 concurrent push/pulls was not applied to exchanges that are past their reply", n, inflight)
+	}
+	if n < 100 {
+		fail("harness/merge-cap", "only %d of %d push/pulls reached the merge delegate", n, total)
+	}
+	close(gate)
+	Settle(6 * time.Second)
+	if c := V.ML().VerifPushPullInFlight(); c != 0 {
+		fail("pushpull-counter", "push/pull in-flight counter is %d at rest", c)
 	}
 	return
 }
